@@ -1,9 +1,167 @@
 /-
-  C07 — property theorems only (helper lemmas live in Lemmas.lean).
+  C07 — property theorems only (helper lemmas: Lemmas.lean, LemmasTree.lean, LemmasInv.lean,
+  LemmasFind.lean).  Every theorem is about the model of Model.lean, for EVERY history of operations
+  (`run (init cap) ops`, no bound on length, names, capacities or times) and every order in which a
+  Go map may enumerate the children of a tree node (`OrdOk`).
+
+  Assumption A-hash: the tables of the model are keyed by names; the code keys them by xxhash64 of
+  the names (injective on the names of a run: checked by the harness at run time).
 -/
-import NdnVerif.C07.Spec
+import NdnVerif.C07.LemmasFind
 namespace Ndn.C07
 
-theorem init_empty (k : Nat) : (init k).cs = [] := rfl
+/-- every state reached from an empty store of any capacity by any history satisfies the invariant -/
+theorem reachable_inv (cap : Nat) (ops : List Op) : Inv (run (init cap) ops) :=
+  run_inv (inv_init cap) ops
+
+/-- **cs_find_sound.** A lookup answers only with the bytes most recently inserted under a name
+    that equals the Interest name — or extends it when CanBePrefix is set — and, when MustBeFresh is
+    set, only while `now < insertion time + freshness period`; for every history and child order. -/
+theorem cs_find_sound (cap : Nat) (ops : List Op) (n : Name) (cbp mbf : Bool)
+    (ord : List Name → List Name) (ho : OrdOk ord) :
+    let s := run (init cap) ops
+    csAnswerOk s.hist s.now ⟨n, cbp, mbf⟩ (findData ord s n cbp mbf).2 = true := by
+  intro s
+  have h : Inv s := reachable_inv cap ops
+  -- every acceptable entry at a matching name is a correct answer
+  have key : ∀ q, acceptable s mbf q = true → nameMatches ⟨n, cbp, mbf⟩ q = true →
+      csAnswerOk s.hist s.now ⟨n, cbp, mbf⟩ (ansOf s (some q)) = true := by
+    intro q ha hm
+    obtain ⟨e, he, hf⟩ := acceptable_get? ha
+    obtain ⟨f, t0, h1, h2⟩ := h.hist q e he
+    simp only [ansOf, he, Option.map_some, csAnswerOk, h1, hm]
+    cases mbf with
+    | false => simp
+    | true => have := hf rfl; simp; omega
+  unfold findData
+  split
+  · split
+    · split
+      · rename_i ha; exact key n ha (by simp [nameMatches])
+      · simp [csAnswerOk]
+    · rename_i hc
+      have hc' : cbp = true := by simpa using hc
+      cases hw : walk ord s mbf (fuel s) n with
+      | none => simp [ansOf, csAnswerOk]
+      | some q =>
+        obtain ⟨ha, hp⟩ := walk_sound ho s mbf _ _ _ hw
+        exact key q ha (by simp [nameMatches, hc', isPrefix_iff.mpr hp])
+  · simp [csAnswerOk]
+
+example : csAnswerOk [Ev.ins [⟨8, [97]⟩] [1] 5 0] 3 ⟨[], true, true⟩ (some ([⟨8, [97]⟩], [1])) = true := by decide
+example : csAnswerOk [Ev.ins [⟨8, [97]⟩] [1] 5 0] 5 ⟨[], true, true⟩ (some ([⟨8, [97]⟩], [1])) = false := by decide
+
+/-- **cs_capacity_after_insert.** Inserting a packet under a name that is not cached leaves at most
+    the currently configured capacity of packets cached, and the reported size is the true size —
+    whatever the history, hence also when the capacity was lowered before (`Op.cap`). -/
+theorem cs_capacity_after_insert (cap : Nat) (ops : List Op) (n : Name) (w : Bytes) (f : Nat)
+    (pit : Name → Bool) :
+    let s := run (init cap) ops
+    let s' := insertData pit s n w f
+    s.cs.has n = false → s'.cs.length ≤ s.cap ∧ s'.cap = s.cap ∧ s'.nCs = s'.cs.length := by
+  intro s s' hn
+  have h : Inv s := reachable_inv cap ops
+  have h' : Inv s' := insertData_inv pit h n w f
+  have hq : s'.queue.length ≤ s.cap ∧ s'.cap = s.cap := by
+    simp only [s', insertData, hn, Bool.false_eq_true, ↓reduceIte, evict]
+    obtain ⟨h1, _, _⟩ := fold_eraseCs_fields pit
+      ((s.queue ++ [n]).take ((s.queue ++ [n]).length - s.cap))
+      { s with nCs := s.nCs + 1, nodes := fill s.nodes n, cs := s.cs ++ [(n, ⟨w, s.now + f⟩)],
+               queue := s.queue ++ [n], hist := Ev.ins n w f s.now :: s.hist }
+    simp only [List.length_drop] at *
+    exact ⟨by omega, h1⟩
+  exact ⟨by rw [← h'.qlen]; exact hq.1, hq.2, h'.ncs⟩
+
+example : (insertData (fun _ => false) (run (init 1) [Op.ins [⟨8, [97]⟩] [1] 0]) [⟨8, [98]⟩] [2] 0).cs.length = 1 := by decide
+example : (insertData (fun _ => false) (run (init 2) [Op.ins [⟨8, [97]⟩] [1] 0, Op.ins [⟨8, [99]⟩] [1] 0, Op.cap 0]) [⟨8, [98]⟩] [2] 0).cs.length = 0 := by decide
+
+/-- **cs_evicts_lru.** Whatever an insertion evicts was touched (inserted, refreshed or hit by an
+    exact-name lookup) less recently than everything that stays cached: `age` = number of events
+    since the last touch, so every victim is strictly older than every survivor. -/
+theorem cs_evicts_lru (cap : Nat) (ops : List Op) (n : Name) (w : Bytes) (f : Nat) (pit : Name → Bool) :
+    let s := run (init cap) ops
+    let s' := insertData pit s n w f
+    ∀ v, (v ∈ s.cs.keys ∨ v = n) → v ∉ s'.cs.keys → ∀ m ∈ s'.cs.keys, age s'.hist m < age s'.hist v := by
+  intro s s' v hv hv' m hm
+  have h : Inv s := reachable_inv cap ops
+  have h' : Inv s' := insertData_inv pit h n w f
+  by_cases hn : s.cs.has n = true
+  · -- refresh: nothing leaves the store
+    exfalso; apply hv'
+    simp only [s', insertData, hn, ↓reduceIte, keys_set]
+    rcases hv with hv | rfl
+    · exact hv
+    · exact has_iff.mp hn
+  · have hn' : s.cs.has n = false := by simpa using hn
+    have hk : n ∉ s.cs.keys := has_false_iff.mp hn'
+    have hnq : n ∉ s.queue := fun e => hk ((h.qmem n).mp e)
+    -- the state before eviction
+    let s1 : St := { s with nCs := s.nCs + 1, nodes := fill s.nodes n, cs := s.cs ++ [(n, ⟨w, s.now + f⟩)],
+                            queue := s.queue ++ [n], hist := Ev.ins n w f s.now :: s.hist }
+    have hs' : s' = evict pit s1 := by simp only [s', insertData, hn', Bool.false_eq_true, ↓reduceIte, s1]
+    have hlru1 : s1.queue.Pairwise (fun a b => age s1.hist b < age s1.hist a) := by
+      have := touch_pairwise (e := Ev.ins n w f s.now) (n := n) h.lru (by simp [touches])
+        (by intro x hx; simp [touches]; exact fun e => hx e.symm)
+      rwa [rem_of_not_mem hnq] at this
+    let k := s1.queue.length - s1.cap
+    obtain ⟨_, _, l, hl, hhist⟩ := fold_eraseCs_fields pit (s1.queue.take k) s1
+    have hq' : s'.queue = s1.queue.drop k := by rw [hs']; rfl
+    have hh' : s'.hist = l ++ s1.hist := by rw [hs']; exact hhist
+    have hmq : m ∈ s1.queue.drop k := by rw [← hq']; exact (h'.qmem m).mpr hm
+    have hvq1 : v ∈ s1.queue := by
+      show v ∈ s.queue ++ [n]
+      rcases hv with hv | rfl
+      · exact List.mem_append_left _ ((h.qmem v).mpr hv)
+      · simp
+    have hvq : v ∈ s1.queue.take k := by
+      rw [← List.take_append_drop k s1.queue] at hvq1
+      rcases List.mem_append.mp hvq1 with hv1 | hv1
+      · exact hv1
+      · exfalso; apply hv'; exact (h'.qmem v).mp (by rw [hq']; exact hv1)
+    have hpw := hlru1
+    rw [← List.take_append_drop k s1.queue, List.pairwise_append] at hpw
+    have := hpw.2.2 v hvq m hmq
+    rw [hh', age_quiets hl, age_quiets hl]; omega
+
+example :
+    let s' := insertData (fun _ => false)
+      (run (init 2) [Op.ins [⟨8, [97]⟩] [1] 0, Op.ins [⟨8, [98]⟩] [1] 0, Op.find [⟨8, [97]⟩] false false id]) [⟨8, [99]⟩] [2] 0
+    s'.cs.keys = [[⟨8, [97]⟩], [⟨8, [99]⟩]] := by decide
+
+/-- **cs_find_exact_complete.** A packet that is cached and unevicted according to the history
+    (`cachedH`: inserted, no eviction of it since) and fresh (or MustBeFresh unset) is always found
+    by an exact-name lookup, with the bytes of its most recent insertion. -/
+theorem cs_find_exact_complete (cap : Nat) (ops : List Op) (n : Name) (mbf : Bool)
+    (ord : List Name → List Name) (w : Bytes) (f t0 : Nat) :
+    let s := run (init cap) ops
+    cachedH s.hist n = true → lastInsert s.hist n = some (w, f, t0) → (mbf = true → s.now < t0 + f) →
+    (findData ord s n false mbf).2 = some (n, w) := by
+  intro s hc hl hf
+  have h : Inv s := reachable_inv cap ops
+  have hk : n ∈ s.cs.keys := (h.cached n).mp hc
+  obtain ⟨e, he⟩ := mem_keys_get? hk
+  obtain ⟨f', t0', h1, h2⟩ := h.hist n e he
+  rw [hl] at h1
+  simp only [Option.some.injEq, Prod.mk.injEq] at h1
+  obtain ⟨hw, hf', ht'⟩ := h1
+  subst hw hf' ht'
+  have hnode : nodeAt s n = true := nodeAt_iff.mpr (h.reach n hk)
+  have hacc : acceptable s mbf n = true := by
+    simp only [acceptable, he]
+    cases mbf with
+    | false => simp
+    | true => have := hf rfl; simp; omega
+  simp [findData, hnode, hacc, ansOf, he]
+
+example : (findData id (run (init 3) [Op.ins [⟨8, [97]⟩, ⟨8, [98]⟩] [7] 5, Op.adv 4]) [⟨8, [97]⟩, ⟨8, [98]⟩] false true).2
+    = some ([⟨8, [97]⟩, ⟨8, [98]⟩], [7]) := by decide
+
+/-- the LRU queue and the map always hold the same names, each once; the reported size is exact -/
+theorem cs_size_true (cap : Nat) (ops : List Op) :
+    let s := run (init cap) ops
+    s.nCs = s.cs.length ∧ s.queue.length = s.cs.length := by
+  intro s
+  have h : Inv s := reachable_inv cap ops
+  exact ⟨h.ncs, h.qlen⟩
 
 end Ndn.C07
